@@ -22,6 +22,8 @@ def dispatch (line : String) : String :=
   | "meta" :: args => Driver.Expr.handleMeta (Driver.Expr.tokenize (" ".intercalate args))
   | "ac" :: args => Driver.Expr.handleAc (Driver.Expr.tokenize (" ".intercalate args))
   | "bits" :: args => Driver.Expr.handleBits (Driver.Expr.tokenize (" ".intercalate args))
+  | "excavate" :: args => Driver.Expr.handleExcavate (Driver.Expr.tokenize (" ".intercalate args))
+  | "burrow" :: args => Driver.Expr.handleBurrow (Driver.Expr.tokenize (" ".intercalate args))
   | "rules" :: args => Driver.Expr.handleRules (Driver.Expr.tokenize (" ".intercalate args))
   | _ => "bad-op"
 
